@@ -341,9 +341,12 @@ def layout_sides(prog: Program) -> RuleResult:
             raise AnalysisError(f"_compute_branches: handler of {kind} not found")
     # the unpacking `left_gene, right_gene = root_gene.children`
     unpack = None
-    for st in ast.walk(fn):
+    handler_nodes = {id(x) for body in handlers.values() for st0 in body for x in ast.walk(st0)}
+    for st in sorted((x for x in ast.walk(fn) if isinstance(x, ast.Assign)), key=lambda x: x.lineno):
+        if id(st) in handler_nodes:
+            continue  # an unpacking inside a handler concerns the species, not the object node
         if isinstance(st, ast.Assign) and isinstance(st.targets[0], ast.Tuple) and isinstance(st.value, ast.Attribute) and st.value.attr == "children":
-            if len(st.targets[0].elts) == 2 and all(isinstance(e, ast.Name) for e in st.targets[0].elts):
+            if len(st.targets[0].elts) == 2 and all(isinstance(e, ast.Name) for e in st.targets[0].elts) and unpack is None:
                 unpack = [e.id for e in st.targets[0].elts]
                 node_var = dotted(st.value.value)
     if unpack is None:
@@ -358,7 +361,8 @@ def layout_sides(prog: Program) -> RuleResult:
                 continue
             genes = {unpack[0]: "c0", unpack[1]: "c1"}
             species_of = {"c0": l, "c1": r}
-            out = _run_handler(body, model, n, genes, species_of, node_var)
+            out = _run_handler(body, model, n, genes, species_of, node_var,
+                               need_wrapped=("left",) if kind == "HORIZONTAL_TRANSFER" else ("left", "right"))
             checked += 1
             if out is None:
                 raise AnalysisError(f"{construct}: the handler does not store a branch with `left` and `right`")
@@ -391,9 +395,11 @@ def layout_sides(prog: Program) -> RuleResult:
     return res
 
 
-def _run_handler(body, model: TreeModel, n: int, genes: Dict[str, str], species_of: Dict[str, int], node_var: str):
+def _run_handler(body, model: TreeModel, n: int, genes: Dict[str, str], species_of: Dict[str, int], node_var: str,
+                 need_wrapped=("left", "right")):
     """Execute a handler block symbolically. Returns (left lineage, right lineage, problems) at the branch store."""
     species: Dict[str, int] = {}
+    wrapped: set = set()
     problems: List[str] = []
     result: List[Tuple[str, str]] = []
 
@@ -436,10 +442,22 @@ def _run_handler(body, model: TreeModel, n: int, genes: Dict[str, str], species_
                 tgt, val = st.targets[0], st.value
                 if isinstance(tgt, ast.Tuple) and len(tgt.elts) == 2 and all(isinstance(e, ast.Name) for e in tgt.elts):
                     got = pair(val)
-                    if got is None:
-                        raise AnalysisError(f"layout sides: `{short(st)}` is not an assignment of the two children")
-                    genes[tgt.elts[0].id], genes[tgt.elts[1].id] = got
-                    continue
+                    if got is not None:
+                        genes[tgt.elts[0].id], genes[tgt.elts[1].id] = got
+                        wrapped.discard(tgt.elts[0].id)
+                        wrapped.discard(tgt.elts[1].id)
+                        continue
+                    # `a, b = <species>.children`
+                    if isinstance(val, ast.Attribute) and val.attr == "children":
+                        try:
+                            base = ev.term(val.value)
+                        except (AnalysisError, Undefined):
+                            base = None
+                        kids = model.children(base) if base is not None else []
+                        if len(kids) == 2:
+                            species[tgt.elts[0].id], species[tgt.elts[1].id] = kids
+                            continue
+                    raise AnalysisError(f"layout sides: `{short(st)}` is not an assignment of the two children")
                 if isinstance(tgt, ast.Name):
                     if isinstance(val, ast.Call) and dotted(val.func) == "_add_losses":
                         args = val.args
@@ -453,6 +471,7 @@ def _run_handler(body, model: TreeModel, n: int, genes: Dict[str, str], species_
                         if start is not None and start != species_of[g]:
                             problems.append(f"`{short(val, 70)}` starts the losses of one child from the species of the other")
                         genes[tgt.id] = g
+                        wrapped.add(tgt.id)
                         continue
                     g = gene_of(val)
                     if g is not None:
@@ -470,6 +489,13 @@ def _run_handler(body, model: TreeModel, n: int, genes: Dict[str, str], species_
                         if a is None or b is None:
                             raise AnalysisError("layout sides: `left`/`right` of the stored branch are not child genes")
                         result.append((a, b))
+                        for side in need_wrapped:
+                            var = entries[side]
+                            if isinstance(var, ast.Name) and var.id not in wrapped:
+                                problems.append(
+                                    f"the `{side}` entry is `{var.id}`, which is not the value returned by _add_losses for that "
+                                    "lineage: the chain of loss nodes between the child's species and this one is never linked"
+                                )
                     continue
                 continue
             if isinstance(st, (ast.Expr, ast.Pass, ast.Raise, ast.Assert, ast.AugAssign)):
